@@ -12,6 +12,7 @@ import (
 	"sync"
 	"sync/atomic"
 	"testing"
+	"time"
 
 	"github.com/netflix/rend/metrics"
 	"pgregory.net/rapid"
@@ -333,6 +334,89 @@ func TestC18Stale(t *testing.T) {
 			rec.Sample(true, map[string]interface{}{"consecutive_full_periods": shape})
 		}
 	})
+}
+
+// TestC18PollRace: a burst that fills the sample ring, then a trickle of small
+// values that starts while the period is being read out, then a second read.
+// Whatever the reader does outside its lock (it sorts the ring it took), the
+// quiet period's report must be consistent in itself -- min <= every
+// percentile <= max -- and every percentile must be one of the small values
+// (the large ones were all observed before the first read began).  Every other
+// round an extra read flips which of the two rings takes the burst.
+func TestC18PollRace(t *testing.T) {
+	c18Setup()
+	rec := evid.For("C18")
+	rounds := 24
+	if thorough() {
+		rounds = 400
+	}
+	shard, _ := evid.Shard()
+	readMetrics()
+	for round := 0; round < rounds; round++ {
+		var wg sync.WaitGroup
+		for w := 0; w < 4; w++ {
+			wg.Add(1)
+			go func(w int) {
+				defer wg.Done()
+				for i := 0; i < 8300; i++ {
+					metrics.ObserveHist(c18Hist, uint64(1000000+w*10000+i))
+				}
+			}(w)
+		}
+		wg.Wait()
+		// small values at a steady pace (one every few microseconds) from before the
+		// read until it has returned: the first one after the reader's buffer swap
+		// arrives while the reader is still working on the ring it took
+		small := map[uint64]bool{}
+		nsmall := 0
+		pace := time.Duration(2+(round+shard)%12) * time.Microsecond
+		var stop int32
+		started := make(chan struct{})
+		trickled := make(chan struct{})
+		go func() {
+			defer close(trickled)
+			for i := 0; atomic.LoadInt32(&stop) == 0 && i < 200000; i++ {
+				v := uint64(10 + (i*7+round)%190)
+				small[v] = true
+				nsmall++
+				metrics.ObserveHist(c18Hist, v)
+				if i == 0 {
+					close(started)
+				}
+				for t0 := time.Now(); time.Since(t0) < pace; {
+				}
+			}
+		}()
+		<-started
+		readMetrics()
+		atomic.StoreInt32(&stop, 1)
+		<-trickled
+		hp := readHist(readMetrics(), "verif_c18_plain")
+		msg := ""
+		if hp.HasPctls && hp.Count > 0 {
+			lo, hi := hp.Pctls["percentile0"], hp.Pctls["percentile100"]
+			for _, p := range pctlTags {
+				v := hp.Pctls[p]
+				if v < lo || v > hi {
+					msg = fmt.Sprintf("%s = %d lies outside [min %d, max %d]", p, v, lo, hi)
+				} else if !small[v] {
+					msg = fmt.Sprintf("%s = %d is not one of the values observed since the previous read began", p, v)
+				}
+			}
+		}
+		if hp.Count > uint64(nsmall) {
+			msg = fmt.Sprintf("count %d, but only %d observations were made since the previous read began", hp.Count, nsmall)
+		}
+		rec.Case(true, fmt.Sprintf("pollrace|%d|%d|%d", shard, round, nsmall), "hist-quiet-period-after-burst")
+		if msg != "" {
+			p := rec.Violation("TestC18PollRace", map[string]interface{}{"round": round, "small_values": nsmall, "problem": msg})
+			t.Fatalf("C18 poll race, round %d (burst of 33200 values around 10^6, then %d values in 10..199 at one per %v while the period is read): the next period (%d observations) reports %s; percentiles %v; replay %s", round, nsmall, pace, hp.Count, msg, hp.Pctls, p)
+		}
+		if round%2 == 1 {
+			readMetrics() // flip the ring parity for the next burst
+		}
+	}
+	rec.Sample(true, map[string]interface{}{"poll_race_rounds": rounds, "burst": 33200, "small_value_pace_us": "2..13"})
 }
 
 // TestC18Concurrent: concurrent observers and a concurrent reader; no
